@@ -26,7 +26,8 @@ class _More(Exception):
 
 
 class _Return(Exception):
-    pass
+    def __init__(self, value=None):
+        self.value = value
 
 
 class CodeV:
@@ -37,6 +38,20 @@ class CodeV:
 class TextV:
     def __init__(self, kind):
         self.kind = kind
+
+
+class LineV:
+    """a whole control line as read from the stream (bytes or decoded text, right-stripped or not)"""
+
+    def __init__(self, num, same, kind):
+        self.num, self.same, self.kind = num, same, kind
+
+
+class HeadV:
+    """the first three characters of a line, before they are wrapped into the code type"""
+
+    def __init__(self, line):
+        self.line = line
 
 
 def spec(lines):
@@ -56,9 +71,30 @@ def spec(lines):
                 return ("done", k)
 
 
-def run_impl(fn, lines):
-    env = {}
+class _Env:
+    """frames of local variables; a nested helper reads the variables of the frames below it"""
+
+    def __init__(self):
+        self.frames = [{}]
+
+    def __contains__(self, k):
+        return any(k in f for f in self.frames)
+
+    def __getitem__(self, k):
+        for f in reversed(self.frames):
+            if k in f:
+                return f[k]
+        raise KeyError(k)
+
+    def __setitem__(self, k, v):
+        self.frames[-1][k] = v
+
+
+def run_impl(fn, lines, helpers=None):
+    env = _Env()
+    funcs = dict(helpers or {})   # name -> function node: methods of the class (called as self.<name>) and local functions
     pos = [0]
+    depth = [0]
 
     def read():
         if pos[0] >= len(lines):
@@ -70,9 +106,87 @@ def run_impl(fn, lines):
     def is_parse_line(e):
         return isinstance(e, ast.Await) and isinstance(e.value, ast.Call) and isinstance(e.value.func, ast.Attribute) and e.value.func.attr == "parse_line"
 
+    def call(fnode, args):
+        params = [a.arg for a in fnode.args.args]
+        if params and params[0] in ("self", "cls"):
+            if len(args) == len(params):
+                args = args[1:]    # a local function that takes the instance explicitly
+            params = params[1:]
+        if len(args) > len(params) or fnode.args.vararg or fnode.args.kwarg:
+            raise Inconclusive(f"C06.DEC: helper call outside the vocabulary: {fnode.name}")
+        depth[0] += 1
+        if depth[0] > 6:
+            raise Inconclusive("C06.DEC: helper recursion")
+        env.frames.append(dict(zip(params, args)))
+        try:
+            body = list(fnode.body)
+            if body and isinstance(body[0], ast.Expr) and isinstance(body[0].value, ast.Constant):
+                body = body[1:]
+            try:
+                run(body)
+            except _Return as r:
+                return r.value
+            return None
+        finally:
+            env.frames.pop()
+            depth[0] -= 1
+
+    def helper_of(e):
+        if isinstance(e, ast.Call) and isinstance(e.func, ast.Name) and e.func.id in funcs:
+            return funcs[e.func.id]
+        if isinstance(e, ast.Call) and isinstance(e.func, ast.Attribute) and isinstance(e.func.value, ast.Name) and e.func.value.id in ("self", "cls") \
+                and e.func.attr in funcs and e.func.attr != "parse_line":
+            return funcs[e.func.attr]
+        return None
+
     def ev(e):
         if isinstance(e, ast.Constant):
             return e.value
+        if is_parse_line(e):
+            return read()
+        if isinstance(e, ast.Await) and isinstance(e.value, ast.Call) and isinstance(e.value.func, ast.Attribute) and e.value.func.attr == "readline" and not e.value.args:
+            if pos[0] >= len(lines):
+                raise _More()
+            num, same, kind = lines[pos[0]]
+            pos[0] += 1
+            return LineV(num, same if num else False, kind)
+        if isinstance(e, ast.Await):
+            return ev(e.value)
+        if isinstance(e, ast.Call) and isinstance(e.func, ast.Attribute) and e.func.attr in ("decode", "rstrip") and (e.func.attr == "decode" or not e.args):
+            try:
+                recv0 = ev(e.func.value)
+            except Inconclusive:
+                recv0 = None
+            if isinstance(recv0, LineV):
+                return recv0
+        if isinstance(e, ast.Subscript) and isinstance(e.slice, ast.Slice) and isinstance(e.value, ast.Name) and e.value.id in env and isinstance(env[e.value.id], LineV):
+            ln, sl = env[e.value.id], e.slice
+            lo = sl.lower.value if isinstance(sl.lower, ast.Constant) else None
+            hi = sl.upper.value if isinstance(sl.upper, ast.Constant) else None
+            if sl.step is None and (lo, hi) in ((None, 3), (0, 3)):
+                return HeadV(ln)
+            if sl.step is None and (lo, hi) == (3, None):
+                return TextV(ln.kind)
+            raise Inconclusive(f"C06.DEC: line slice outside the vocabulary: {src(e)}")
+        if isinstance(e, ast.Call) and isinstance(e.func, ast.Name) and e.func.id == "Code" and len(e.args) == 1:
+            h = ev(e.args[0])
+            if isinstance(h, HeadV):
+                return CodeV(h.line.num, h.line.same)
+            raise Inconclusive(f"C06.DEC: code built from something else than the first three characters: {src(e)}")
+        if isinstance(e, ast.Tuple) and any(isinstance(x, (ast.Call, ast.Subscript)) for x in e.elts) and depth[0] >= 0 \
+                and all(isinstance(x, (ast.Call, ast.Subscript, ast.Name, ast.Constant)) for x in e.elts):
+            try:
+                vals = tuple(ev(x) for x in e.elts)
+            except Inconclusive:
+                vals = None
+            if vals is not None and any(isinstance(v, (CodeV, TextV)) for v in vals):
+                return vals
+        if helper_of(e) is not None:
+            if e.keywords or any(isinstance(a, ast.Starred) for a in e.args):
+                raise Inconclusive(f"C06.DEC: helper call outside the vocabulary: {src(e)[:50]}")
+            return call(helper_of(e), [None if isinstance(a, ast.Name) and a.id in ("self", "cls") else ev(a) for a in e.args])
+        if isinstance(e, ast.Tuple) and all(isinstance(x, (ast.Name, ast.Constant)) for x in e.elts):
+            return tuple(ev(x) if not isinstance(x, ast.Name) or x.id in env else None for x in e.elts)
         if isinstance(e, ast.Name):
             if e.id not in env:
                 raise Inconclusive(f"C06.DEC: decoder reads unknown name `{e.id}`")
@@ -127,20 +241,27 @@ def run_impl(fn, lines):
     def truth(v):
         if isinstance(v, TextV):
             return v.kind != ""
-        if isinstance(v, CodeV):
+        if isinstance(v, (CodeV, LineV)):
             return True
         return bool(v)
 
     def run(stmts):
         for s in stmts:
-            if isinstance(s, ast.Assign):
-                if is_parse_line(s.value):
-                    c, t = read()
+            if isinstance(s, FuncT):
+                funcs[s.name] = s
+            elif isinstance(s, ast.Assign):
+                produces_pair = is_parse_line(s.value) or helper_of(s.value.value if isinstance(s.value, ast.Await) else s.value) is not None \
+                    or (isinstance(s.value, ast.Tuple) and any(isinstance(x, ast.Call) and isinstance(x.func, ast.Name) and x.func.id == "Code" for x in s.value.elts))
+                if produces_pair and isinstance(s.targets[0], ast.Tuple):
+                    v = ev(s.value)
                     tg = s.targets[0]
-                    if isinstance(tg, ast.Tuple) and len(tg.elts) == 2 and all(isinstance(x, ast.Name) for x in tg.elts):
-                        env[tg.elts[0].id], env[tg.elts[1].id] = c, t
+                    if isinstance(v, tuple) and len(tg.elts) == len(v) and all(isinstance(x, ast.Name) for x in tg.elts):
+                        for x, y in zip(tg.elts, v):
+                            env[x.id] = y
                     else:
                         raise Inconclusive("C06.DEC: parse_line result is not unpacked into (code, rest)")
+                elif is_parse_line(s.value):
+                    raise Inconclusive("C06.DEC: parse_line result is not unpacked into (code, rest)")
                 else:
                     v = ev(s.value)
                     for tg in s.targets:
@@ -155,6 +276,8 @@ def run_impl(fn, lines):
             elif isinstance(s, ast.Expr):
                 if is_parse_line(s.value):
                     read()
+                elif helper_of(s.value.value if isinstance(s.value, ast.Await) else s.value) is not None:
+                    ev(s.value)
                 continue
             elif isinstance(s, ast.If):
                 run(s.body if truth(ev(s.test)) else s.orelse)
@@ -175,7 +298,10 @@ def run_impl(fn, lines):
             elif isinstance(s, ast.Raise):
                 raise _Reject()
             elif isinstance(s, ast.Return):
-                raise _Return()
+                v = None
+                if s.value is not None and depth[0] > 0:
+                    v = ev(s.value)
+                raise _Return(v)
             elif isinstance(s, ast.Break):
                 raise _Break()
             elif isinstance(s, ast.Continue):
@@ -214,7 +340,7 @@ def render(lines):
     return out
 
 
-def compare(fn, maxlen=3):
+def compare(fn, maxlen=3, helpers=None):
     """-> (n sequences, [(lines, impl outcome, spec outcome)])"""
     others = [(True, True, k) for k in KINDS] + [(True, False, k) for k in KINDS] + [(False, False, k) for k in KINDS]
     firsts = [(True, True, k) for k in KINDS]
@@ -226,7 +352,7 @@ def compare(fn, maxlen=3):
                 lines = [first] + list(rest)
                 n += 1
                 want = spec(lines)
-                got = run_impl(fn, lines)
+                got = run_impl(fn, lines, helpers)
                 # a sequence longer than what the reference consumes: compare only the prefix behaviour
                 if got != want:
                     if want[0] == "done" and got == ("done", want[1]):
